@@ -57,6 +57,22 @@ func makeItem(t *rapid.T, label string, w *vgen.MsgWorld, d drawnMsg, forceRekey
 		}
 		return vgen.CloneChain(vals[rapid.IntRange(0, len(vals)-1).Draw(t, l)])
 	}
+	if pm.Justification != nil && !forceRekey && rapid.IntRange(0, 3).Draw(t, label+".justvalue") == 0 {
+		// a partial form whose justification still names a value: the vote's own value, another
+		// one, or bottom - whatever the aggregate was really made over (a sender is free to put
+		// anything there; only what full validation later compares may decide)
+		it.strip = false
+		cp := clonePartial(pm)
+		switch rapid.IntRange(0, 2).Draw(t, label+".justvaluekind") {
+		case 0:
+			cp.Justification.Vote.Value = vgen.CloneChain(orig)
+		case 1:
+			cp.Justification.Vote.Value = pick(label + ".jv")
+		default:
+			cp.Justification.Vote.Value = &gpbft.ECChain{}
+		}
+		pm = cp
+	}
 	// announced key
 	keyOps := []string{"as-produced", "as-produced", "as-produced", "zero", "other-chain", "random"}
 	it.keyOp = rapid.SampledFrom(keyOps).Draw(t, label+".keyop")
